@@ -154,6 +154,9 @@ func ruleSubjectDelivers() check.Rule {
 						return true
 					})
 					inRegion := func(k int, n ast.Node) bool {
+						if k == 0 {
+							return true
+						}
 						if len(regions[1]) == 0 && len(regions[2]) == 0 {
 							return true // no recognisable status branch: fall back to "somewhere in the method"
 						}
@@ -180,6 +183,49 @@ func ruleSubjectDelivers() check.Rule {
 						}
 						return true
 					})
+					// registration and replay
+					rvS := recvObj(info, fd)
+					registers := false
+					ast.Inspect(fd.Body, func(x ast.Node) bool {
+						switch y := x.(type) {
+						case *ast.AssignStmt:
+							for _, l := range y.Lhs {
+								if fs := fieldSelOf(info, l, rvS); fs != nil && fs.Sel.Name == "observer" {
+									registers = true
+								}
+							}
+						case *ast.CallExpr:
+							if sel, ok := ast.Unparen(y.Fun).(*ast.SelectorExpr); ok && sel.Sel.Name == "Store" {
+								if fs := fieldSelOf(info, sel.X, rvS); fs != nil && fs.Sel.Name == "observers" {
+									registers = true
+								}
+							}
+						}
+						return true
+					})
+					rkey := fmt.Sprintf("ro.%s.SubscribeWithContext/registers", tname)
+					if registers {
+						c.OK(rkey, fd.Pos(), "the new subscriber is stored in the observer set")
+					} else {
+						c.Violation(rkey, fd.Pos(), "SubscribeWithContext never stores the new subscriber in the observer set: it receives nothing of what the subject is sent later")
+					}
+					// subjects that keep values for late subscribers (fields last / values) replay them on subscription
+					if st, ok := p.Types.Scope().Lookup(tname).Type().Underlying().(*types.Struct); ok {
+						keeps := false
+						for i := 0; i < st.NumFields(); i++ {
+							if n := st.Field(i).Name(); n == "last" || n == "values" {
+								keeps = true
+							}
+						}
+						if keeps {
+							pkey := fmt.Sprintf("ro.%s.SubscribeWithContext/replays", tname)
+							if kinds[0] {
+								c.OK(pkey, fd.Pos(), "the stored value(s) are sent to the new subscriber")
+							} else {
+								c.Violation(pkey, fd.Pos(), "the subject keeps values for late subscribers but SubscribeWithContext never sends a Next to the new subscriber")
+							}
+						}
+					}
 					if kinds[1] && kinds[2] {
 						c.OK(key, fd.Pos(), "a subscriber arriving after termination is sent the stored Error or the Complete")
 					} else {
